@@ -282,6 +282,8 @@ def renamed_locals(R):
 def run(R):
     R.build()
     R.prove('Props/C05.v')
+    from ..flagtie import regen_and_tie_flags
+    regen_and_tie_flags(R)       # the flag methods of the current source, translated, equal Model.always / Model.partial
     renamed_locals(R)
     rnd = random.Random(R.seed)
     jobs = jobs_for(R.tier, rnd)
